@@ -1197,7 +1197,9 @@ def oracle_c14(en, decl, hi, negs=(), codec=()):
     T = en["T"]
     sg = KINDS[en["kind"]][0]
     flags = sorted(set(v for _, v in decl))
-    imps = ['"strconv"', '"strings"'] + (['"encoding/json"'] if "json" in codec else [])
+    imps = ['"strconv"', '"strings"', '"github.com/lopolopen/shoot"'] + (['"encoding/json"'] if "json" in codec else [])
+    names = [trim(T, n) for n, _ in decl]
+    spell = names[:6] + [names[0].lower(), "%s, %s" % (names[0], names[-1]), "nosuch", ""]
     src = ['package cs\n', 'import (\n\t' + "\n\t".join(sorted(imps)) + '\n)\n', DEC_HELPERS[sg] % {"T": T}]
     hist = ""
     if "text" in codec:
@@ -1237,7 +1239,25 @@ def oracle_c14(en, decl, hi, negs=(), codec=()):
 		vals[n] = %(T)s(n).String()
 	}
 	emit("strs", strings.Join(vals, "|"))
-%(negs)s	// call histories: String() must be a function of the value - the same sweep in DESCENDING call order (every union before 0 and
+%(negs)s	// the runtime helpers on declared, undeclared and union values BETWEEN the sweeps: they must not change any later observation
+	for n := 0; n < hi; n++ {
+		_ = shoot.IsEnum[%(T)s, int64](int64(n))
+		_ = shoot.IsEnum[%(T)s, uint16](uint16(n))
+	}
+	for _, s := range []string{%(spell)s} {
+		_, _ = shoot.ParseEnum[%(T)s](s)
+		var t %(T)s
+		_ = shoot.TryParseEnum(s, &t)
+	}
+	{
+		var z %(T)s
+		var p []string
+		for _, v := range z.Values() {
+			p = append(p, verifDec(v))
+		}
+		emit("vals2", strings.Join(p, ","))
+	}
+	// call histories: String() must be a function of the value - the same sweep in DESCENDING call order (every union before 0 and
 	// before the declared values), through every encoder the flags add, and ascending once more
 	for n := hi - 1; n >= 0; n-- {
 		vals[n] = %(T)s(n).String()
@@ -1268,7 +1288,7 @@ def oracle_c14(en, decl, hi, negs=(), codec=()):
 		emit("rem:"+verifDec(f), r.String())
 	}
 }
-''' % {"hi": hi, "T": T, "flags": ", ".join(str(v) for v in flags), "hist": hist,
+''' % {"hi": hi, "T": T, "flags": ", ".join(str(v) for v in flags), "hist": hist, "spell": ", ".join(gostr(x) for x in spell),
        "negs": ('\t{\n\t\tvar p []string\n\t\tfor _, x := range []%s{%s} {\n\t\t\tp = append(p, x.String())\n\t\t}\n'
                 '\t\temit("nstrs", strings.Join(p, "|"))\n\t}\n' % (T, ", ".join(str(v) for v in negs))) if negs else "",
        "decl": ", ".join('"%s=" + verifDec(%s)' % (n, n) for n, _ in decl)})
@@ -1515,7 +1535,11 @@ def layout(ctx, g, en, allow_file=True, force=None):
         else:
             sel = ["-type=" + T]
     extra = {"zz_comp.go": "package cs\n\n" + comp_src} if comp_src else {}
-    return {"mode": mode, "files": files, "sel": sel, "companion": comp, "extra": extra, "genheader": sorted(en.get("genheader", [])),
+    # -v / -verbose are logging-only flags: the output must not depend on them
+    verbose = rng.choice(["-v", "-verbose"]) if rng.random() < 0.3 else None
+    if verbose:
+        sel = [verbose] + sel
+    return {"verbose": bool(verbose), "mode": mode, "files": files, "sel": sel, "companion": comp, "extra": extra, "genheader": sorted(en.get("genheader", [])),
             "nfiles": len(en["files"]), "spread": sum(1 for f in en["files"] if f["blocks"]) > 1}
 
 
